@@ -191,7 +191,14 @@ func (i *Iterator) Next(ctx context.Context, span telem.TimeSpan) (ok bool) {
 
 	i.reset(i.view.End.SpanRange(span).BoundBy(i.bounds))
 
-	if i.view.Span().IsZero() || i.view.End.BeforeEq(i.internal.TimeRange().Start) {
+	if i.view.Span().IsZero() {
+		return
+	}
+	// Position the domain iterator on the first domain that can hold data for the new
+	// view. Its position left over from the previous step cannot be trusted: a step whose
+	// view ended inside a domain without reading the rest of it has already moved on to
+	// the following domain, and an iterator that ran off either end stays invalid.
+	if !i.internal.SeekGE(ctx, i.view.Start) || i.view.End.BeforeEq(i.internal.TimeRange().Start) {
 		return
 	}
 
@@ -359,7 +366,11 @@ func (i *Iterator) Prev(ctx context.Context, span telem.TimeSpan) (ok bool) {
 
 	i.reset(i.view.Start.SpanRange(-1 * span).BoundBy(i.bounds))
 
-	if i.view.Span().IsZero() || i.view.Start.AfterEq(i.internal.TimeRange().End) {
+	if i.view.Span().IsZero() {
+		return
+	}
+	// See Next: reposition on the last domain that can hold data for the new view.
+	if !i.internal.SeekLE(ctx, i.view.End-1) || i.view.Start.AfterEq(i.internal.TimeRange().End) {
 		return
 	}
 
